@@ -107,7 +107,18 @@ func containsXR(p rtcp.Packet) bool {
 }
 
 // c18Ops are the operations of the property's statement.
-var c18Ops = []string{"marshal", "size", "dest", "string", "header", "validate", "unmarshal-direct", "unmarshal-datagram"}
+var c18Ops = []string{"marshal", "size", "dest", "string", "header", "validate", "unmarshal-direct", "unmarshal-datagram", "marshal-list"}
+
+// c18ListOf picks the members of a "marshal-list" step: two or three pool entries starting at
+// idx (the package-level Marshal of a list of packets, whose members may have been decoded from
+// - and alias - buffers that belong to the caller).
+func c18ListOf(idx, n int) []int {
+	out := []int{idx % n, (idx*7 + 3) % n}
+	if idx%2 == 1 {
+		out = append(out, (idx*5+1)%n)
+	}
+	return out
+}
 
 type c18Step struct {
 	Op  string
@@ -260,7 +271,28 @@ var subC18A = harness.NewSub("c18-history-purity", func(c c18History, _ harness.
 		} else {
 			i := s.Idx % len(pool)
 			pk := pool[i]
-			if s.Op == "marshal" {
+			if s.Op == "marshal-list" {
+				var list []rtcp.Packet
+				members := c18ListOf(s.Idx%len(pool), len(pool))
+				for _, j := range members {
+					list = append(list, pool[j])
+				}
+				b, err := rtcp.Marshal(list)
+				res, ok = fmt.Sprintf("%x|%v", b, err), true
+				if err == nil && len(b) > 0 {
+					results = append(results, logged{live: b, copy: append([]byte(nil), b...), what: fmt.Sprintf("Marshal of the list %v at step %d", members, si)})
+				}
+				for _, j := range members {
+					if containsXR(pool[j]) && !rebased[j] {
+						snap[j] = dump(pool[j])
+						rebased[j] = true
+						for _, o := range c18Ops {
+							delete(first, key{o, j})
+						}
+						delete(first, key{s.Op, s.Idx % len(pool)})
+					}
+				}
+			} else if s.Op == "marshal" {
 				b, err := pk.Marshal()
 				res, ok = fmt.Sprintf("%x|%v", b, err), true
 				if err == nil && len(b) > 0 {
@@ -305,7 +337,7 @@ var subC18A = harness.NewSub("c18-history-purity", func(c c18History, _ harness.
 func genC18Direct(t *rapid.T) []c18Direct {
 	var out []c18Direct
 	for i := rapid.IntRange(0, 2).Draw(t, "ndirect"); i > 0; i-- {
-		k := rapid.SampledFrom([]m.Kind{m.KRR, m.KSR, m.KRR, m.KSDES, m.KBYE, m.KAPP, m.KNACK, m.KTWCC, m.KCCFB, m.KXR, m.KREMB, m.KFIR, m.KPLI}).Draw(t, "direct.kind")
+		k := rapid.SampledFrom([]m.Kind{m.KRR, m.KSR, m.KRR, m.KSDES, m.KBYE, m.KAPP, m.KNACK, m.KTWCC, m.KCCFB, m.KXR, m.KREMB, m.KFIR, m.KPLI, m.KRAW, m.KRAW}).Draw(t, "direct.kind")
 		p := gen.PacketOf(t, k)
 		shrinkBig(p)
 		e, err := m.Encode(p, &m.EncOpts{D: gen.PionDialect})
@@ -573,6 +605,12 @@ func runScript(c c18Script, concurrent bool) [][]string {
 					continue // the documented writer is not a read-only operation
 				}
 				res, _ = applyOp(op.Op, pk, nil)
+			case op.Op == "marshal-list":
+				if len(own[g]) == 0 {
+					continue
+				}
+				b, err := rtcp.Marshal(own[g])
+				res = fmt.Sprintf("%x|%v", b, err)
 			default:
 				if len(own[g]) == 0 {
 					continue
